@@ -23,6 +23,7 @@ fn run_case(line: &str, budget: u64) -> String {
   let id = l[1].atom().unwrap_or("?").to_string();
   reset_live();
   let sh = Shared::new();
+  set_current(Some(sh.clone()));
   let mut out: Vec<String> = Vec::new();
   for st in l[2..].iter() {
     let before = sh.lock().trace.len();
@@ -56,6 +57,7 @@ fn run_case(line: &str, budget: u64) -> String {
   if out.last().map(|l| !l.ends_with("st=ok") && !l.contains("st=ok #tok")).unwrap_or(false) {
     std::mem::forget(sh);
   }
+  set_current(None);
   format!("{} | {}", id, out.join(" | "))
 }
 
